@@ -148,10 +148,10 @@ pub fn reset_uid_env(seed: u64, clock: ClockFault, rng: RngFault) {
     });
     // The index counter is process-wide; restart it so that a run does not
     // depend on how many ids earlier runs of this process generated.
-    rbx_types::verif::INDEX.store(
-        (derive(seed, 0x696478) & 0xffff) as u32,
-        Ordering::SeqCst,
-    );
+    // Mostly a small start value; now and then just below the wrap-around.
+    let d = derive(seed, 0x696478);
+    let start = if d % 50 == 0 { u32::MAX - ((d >> 8) % 6) as u32 } else { (d & 0xffff) as u32 };
+    rbx_types::verif::INDEX.store(start, Ordering::SeqCst);
 }
 
 /// (clock calls, rng calls, simulated seconds spanned)
